@@ -157,7 +157,7 @@ def state_fn(conf, hist, G, M):
 def run(tier, seed):
     params = {'u1_depth': 3, 'u2_depth': 2, 'two_depth': 3, 'u3_depth': 1} if tier == 'quick' else {'u1_depth': 4}
     return base.run_state_property(
-        PROP, LEVEL, state_fn, tier, seed, reduced=base.REDUCED, params=params, flavours=(0, 1, 2),
+        PROP, LEVEL, state_fn, tier, seed, pure=True, reduced=base.REDUCED, params=params, flavours=(0, 1, 2),
         vacuity={'states_with_stats': 100, 'states_partial_coverage': 50}, sample_fn=base.default_samples,
         assumptions=['node_density uses the denominator pinned by test_density (sum over all nodes v, u itself included)',
                      'ratio measures whose definition has a zero denominator that the library does not guard are skipped',
